@@ -716,6 +716,8 @@ class Emitter:
             if t[1] not in getattr(self, 'assoc', {}):
                 raise TranslateError('associated type %s is not declared uniquely in the file' % t[1])
             return self.ty(self.assoc[t[1]])
+        if isinstance(t, tuple) and t and t[0] == 'generic' and t[1] == 'Vec' and len(t[2]) == 1 and self.ty(t[2][0]) == 'u64':
+            return 'slice'                        # `Vec<u64>`: an owned list of words
         if isinstance(t, tuple) and t and t[0] == 'generic' and t[1] in getattr(self, 'enums', {}):
             return ('enum', t[1], [self.ty(a) for a in t[2]])
         if isinstance(t, str) and t in getattr(self, 'enums', {}):
@@ -1427,6 +1429,8 @@ class Emitter:
             env2[x] = 'u64'
             sb, _ = self.expr(args[0][2], env2, 'bool')
             return '(%s.any (fun %s => %s))' % (sr, lean_ident(x), sb), 'bool'
+        if tr in ('uint', 'slice', 'mutslice') and name == 'last' and not args:
+            return '(%s).getLast?' % sr, ('option', 'u64')
         if tr in ('uint', 'slice', 'mutslice') and name == 'first' and not args:
             return '(%s).head?' % sr, ('option', 'u64')
         if isinstance(tr, tuple) and tr[0] == 'option':
@@ -1482,7 +1486,7 @@ class Emitter:
                 for n in self.target_roots(s[1]):
                     if n and n not in local and n not in out:
                         out.append(n)
-            if s[0] == 'expr' and s[1][0] == 'mcall' and s[1][2] in ('fill', 'copy_from_slice', 'copy_within'):
+            if s[0] == 'expr' and s[1][0] == 'mcall' and s[1][2] in ('fill', 'copy_from_slice', 'copy_within', 'push', 'pop'):
                 for n in self.target_roots(s[1][1]):
                     if n and n not in local and n not in out:
                         out.append(n)
@@ -2202,6 +2206,17 @@ class Emitter:
                 body, tb = self.stmts(rest, env, exp, result)
                 n = lean_ident(base[1][0])
                 return 'let %s := (%s).reverse\n  %s' % (n, n, body), tb
+        if k == 'expr' and s[1][0] == 'mcall' and s[1][2] in ('push', 'pop') and s[1][1][0] == 'path' and len(s[1][1][1]) == 1 \
+                and env.get(s[1][1][1][0]) in ('slice', 'mutslice'):
+            # `v.push(x);` / `v.pop();` on an owned `Vec<u64>`
+            n_ = lean_ident(s[1][1][1][0])
+            if s[1][2] == 'push':
+                sx, _ = self.expr(s[1][3][0], env, 'u64')
+                line = 'let %s := (%s ++ [%s])\n  ' % (n_, n_, sx)
+            else:
+                line = 'let %s := (%s).dropLast\n  ' % (n_, n_)
+            body, tb = self.stmts(rest, env, exp, result)
+            return line + body, tb
         if k == 'expr' and s[1][0] == 'mcall' and s[1][2] in ('fill', 'copy_from_slice', 'copy_within') \
                 and self.slice_place(s[1][1], env):
             # whole-slice updates of a `&mut [u64]` (or of a sub-slice of one)
@@ -3173,6 +3188,11 @@ def conv2_items(repo):
     return out
 
 
+def macro_items(repo):
+    """`pad_limbs` of the `uint!` proc macro (ruint-macro/src/lib.rs): trim / pad to the limb count and the range check"""
+    return [{'file': repo + '/ruint-macro/src/lib.rs', 'fn': 'pad_limbs', 'lean': 'macro_pad_limbs', 'group': 'macro'}]
+
+
 def radix_items(repo):
     """src/base_convert.rs: digit-sequence conversions (limb mode; errors are (variant index, fields))"""
     f = repo + '/src/base_convert.rs'
@@ -3203,6 +3223,7 @@ GROUPS = [('core', 'Words', ('Ruint.Gen.Prelude',)),
           ('binops', 'WordsBinOps', ('Ruint.Gen.WordsUintDiv',)),
           ('bitops', 'WordsBitOps', ('Ruint.Gen.WordsUint',)),
           ('folds', 'WordsFolds', ('Ruint.Gen.WordsUint',)),
+          ('macro', 'WordsMacro', ('Ruint.Gen.Prelude',)),
           ('value', 'WordsValue', ('Ruint.Gen.Prelude', 'Ruint.Model.Modular')),
           ('gcdv', 'WordsGcd', ('Ruint.Gen.Prelude', 'Ruint.Model.Gcd'))]
 
@@ -3229,6 +3250,7 @@ def translate_all(repo):
     items += bin_op_items(repo)
     items += bit_op_items(repo)
     items += fold_items(repo)
+    items += macro_items(repo)
     items += value_items(repo)
     items += gcd_value_items(repo)
     try:
